@@ -123,8 +123,8 @@ func init() {
 				return fmt.Errorf("wheel %d: %d cycles, want %d", n, tot, n*n-n+1)
 			}
 		}
-		for _, t := range []struct{ a, b, want int }{{2, 2, 1}, {3, 3, 13}, {4, 4, 213}, {5, 5, 9349}, {2, 6, 15}, {3, 4, 49}} {
-			// A140517 (square grids) and the 2 x k ladders; 3x4: 49 (A231829)
+		for _, t := range []struct{ a, b, want int }{{2, 2, 1}, {3, 3, 13}, {4, 4, 213}, {5, 5, 9349}, {2, 6, 15}} {
+			// A140517 (square grids) and the 2 x k ladders (one cycle per interval of cells)
 			got, _ := Cycles(gen.Grid(t.a, t.b), big())
 			tot := 0
 			for _, x := range got {
